@@ -37,7 +37,7 @@ class DocEngine:
         deep = tier == "thorough"
         cfg["max_steps"] = rng.choice([4, 6, 8, 10, 14, 18, 25] + ([32, 40] if deep else []), "max_steps")
         cfg["max_saves"] = 10 if deep else 6
-        cfg["p_fault"] = rng.choice([0.0, 0.0, 0.0, 0.25] + ([0.4] if deep else []), "p_fault") if prop in ("C03", "C04", "C11") else 0.0
+        cfg["p_fault"] = rng.choice([0.0, 0.0, 0.3, 0.6] + ([0.8] if deep else []), "p_fault") if prop in ("C03", "C04", "C11") else 0.0
         cfg["p_clock"] = rng.choice([0.0, 0.3, 0.7], "p_clock")
         cfg["p_touch"] = rng.choice([0.05, 0.2, 0.4], "p_touch")
         cfg["p_save"] = rng.choice([0.15, 0.25, 0.4], "p_save")
@@ -230,7 +230,7 @@ class DocEngine:
             k = rng.randint(1, 4, "nvariants")
             op["variants"] = [{"packaging": pk, "pretty": pr, "target": ("bytesio" if pk != "folder" and rng.chance(0.5, "vt") else "path")} for pk, pr in rng.sample(variants, k, "variants")]
             if rng.chance(self.cfg["p_fault"], "fault?"):
-                op["fault"] = {"site": rng.choice(["writestr", "write_bytes", "bytesio_write", "mkdir", "rmtree"], "fsite"), "k": rng.randint(1, 10, "fk"), "errno": rng.choice(["ENOSPC", "EIO"], "ferr"), "partial": rng.chance(0.5, "fpartial"), "at": rng.randint(0, k - 1, "fat")}
+                op["fault"] = {"site": rng.choice(["writestr", "write_bytes", "bytesio_write", "mkdir", "rmtree"], "fsite"), "k": rng.randint(1, 6, "fk"), "errno": rng.choice(["ENOSPC", "EIO"], "ferr"), "partial": rng.chance(0.5, "fpartial"), "at": rng.randint(0, k - 1, "fat")}
         elif name in ("ins_style", "ins_style_other"):
             op = doc_styles.gen_insert(self, rng, n, "main" if name == "ins_style" else "other")
             op["op"] = name
@@ -345,7 +345,7 @@ class DocEngine:
             s["chdir"] = True
         if rng.chance(self.cfg["p_fault"], "fault?"):
             site = rng.choice(["writestr", "zip_read", "write_bytes", "read_bytes", "rmtree", "move", "bytesio_write", "mkdir"], "fsite")
-            s["fault"] = {"site": site, "k": rng.randint(1, 12, "fk"), "errno": rng.choice(["ENOSPC", "EIO", "EACCES"], "ferr"), "partial": rng.chance(0.5, "fpartial")}
+            s["fault"] = {"site": site, "k": rng.randint(1, 8, "fk"), "errno": rng.choice(["ENOSPC", "EIO", "EACCES"], "ferr"), "partial": rng.chance(0.5, "fpartial")}
         return s
 
     # ------------------------------------------------------------------ step
